@@ -752,7 +752,7 @@ End Sorting.
 (* ---- reassembly, abstractly: a sorted list fs of M fragments of one group -------------- *)
 Section Reassembly.
   Context {A : Type}.
-  Variables (g M self ID JOB B : Z) (f0 : packet A) (rest : list (packet A)) (R : packet A).
+  Variables (g M self ID JOB : Z) (f0 : packet A) (rest : list (packet A)) (R : packet A).
   Let fs := f0 :: rest.
   Definition nonempty (p : packet A) : bool := negb (is_nil (p_data p)).
   Definition isempty (p : packet A) : bool := is_nil (p_data p).
@@ -764,7 +764,7 @@ Section Reassembly.
   Hypothesis Hself : self <> 0.
   Hypothesis Hfs : Forall (fun f => p_dev f = self /\ MvRefresh <= p_id f /\ has_multi (p_flags f) = false /\
                                     has_frag (p_flags f) = true /\ f_len (p_flags f) = M /\ f_group (p_flags f) = g /\
-                                    f_bits (p_flags f) = B /\ p_id f = ID /\ p_job f = JOB) fs.
+                                    p_id f = ID /\ p_job f = JOB) fs.
   Hypothesis Hsorted : StronglySorted le_pos fs.
   Hypothesis Hinj : forall x y, In x fs -> In y fs -> pos x = pos y -> x = y.
   Hypothesis Hpos0 : f_pos (p_flags f0) = 0.
@@ -825,8 +825,8 @@ Section Reassembly.
   Qed.
 
   Lemma in_fs_props p : In p fs -> f_len (p_flags p) = M /\ p_id p = ID /\ p_job p = JOB /\ f_group (p_flags p) = g /\
-                                   has_frag (p_flags p) = true /\ f_bits (p_flags p) = B.
-  Proof. intros Hin. rewrite Forall_forall in Hfs. destruct (Hfs p Hin) as (_ & _ & _ & ? & ? & ? & ? & ? & ?). auto 10. Qed.
+                                   has_frag (p_flags p) = true.
+  Proof. intros Hin. rewrite Forall_forall in Hfs. destruct (Hfs p Hin) as (_ & _ & _ & ? & ? & ? & ? & ?). auto 10. Qed.
 
   Lemma stored_head s : stored (f0 :: s) = f0 :: stored s.
   Proof. unfold stored; cbn [filter]. unfold nonempty at 1. rewrite Hdata0. reflexivity. Qed.
@@ -837,8 +837,8 @@ Section Reassembly.
   Proof.
     intros Hin Hl. unfold cl_add, clus. cbn [c_data c_e c_max c_c].
     rewrite stored_head.
-    destruct (in_fs_props p Hin) as (Hlp & Hip & Hjp & Hgp & Hfp & _).
-    destruct (in_fs_props f0 (in_eq _ _)) as (_ & Hi0 & Hj0 & Hg0 & Hf0 & _).
+    destruct (in_fs_props p Hin) as (Hlp & Hip & Hjp & Hgp & Hfp).
+    destruct (in_fs_props f0 (in_eq _ _)) as (_ & Hi0 & Hj0 & Hg0 & Hf0).
     unfold belongs. rewrite !has_frag_nonzero by assumption. rewrite Hip, Hi0, Hjp, Hj0, Hgp, Hg0, !Z.eqb_refl.
     cbn [negb andb]. rewrite Hlp, (u16_small (M - 1)) by lia.
     rewrite stored_app, empties_app, stored_single, empties_single, stored_head.
@@ -1179,11 +1179,12 @@ Section Concrete.
   Proof.
     rewrite split_cons. cbn [hd_error]. intros Hwf L HP Hhd Hpaced. fold M.
     pose proof M_ge2 as HM2.
-    apply (run_reassembles g M self (p_id n) (p_job n) B f0 rest (reassembled n)); try assumption.
+    apply (run_reassembles g M self (p_id n) (p_job n) f0 rest (reassembled n)); try assumption.
     - unfold M in *; lia.
     - rewrite <- split_cons. apply (split_length F F_pos g n Ht).
     - destruct Haddr as (_ & Hself & _). exact Hself.
-    - apply Forall_forall. intros x Hx. destruct (in_split_hfrag x Hx) as (j & -> & _). apply hfrag_props.
+    - apply Forall_forall. intros x Hx. destruct (in_split_hfrag x Hx) as (j & -> & _).
+      destruct (hfrag_props j) as (H1 & H2 & H3 & H4 & H5 & H6 & _ & H8 & H9). auto 10.
     - rewrite <- split_cons, split_map. apply sorted_map_seq. lia.
     - intros x y Hx Hy. destruct (in_split_hfrag x Hx) as (i & -> & Hi). destruct (in_split_hfrag y Hy) as (j & -> & Hj).
       rewrite !hfrag_pos by assumption. intros E. replace j with i by lia. reflexivity.
@@ -1192,6 +1193,160 @@ Section Concrete.
     - intros st. rewrite V_is_reassembled. apply recv_reassembled.
   Qed.
 End Concrete.
+
+(* ---- the same for fragments whose low flag bits were changed on the way (hop flags) ---------------- *)
+Section ConcreteHop.
+  Context {A : Type}.
+  Variables (F g self : Z) (n : packet A) (xb : nat -> Z).
+  Hypothesis HF : HeaderSize <= F.
+  Hypothesis Ht : 0 <= p_tags n.
+  Hypothesis Hs : F < size n.
+  Hypothesis HM : nfrag F n <= 65535.
+  Hypothesis Haddr : addressed self n.
+  Hypothesis Hxb : forall j, Z.testbit (xb j) 1 = false.   (* a hop never turns a fragment into a Multi container *)
+  Let M := nfrag F n.
+  Lemma Fp : 0 < F.
+  Proof. unfold HeaderSize in HF; lia. Qed.
+  Definition hfragx (j : nat) : packet A := or_bits (xb j) (hfrag F g n j).
+  Let K' : nat := (Z.to_nat M - 1)%nat.
+  Let f0 := hfragx 0.
+  Let rest := map hfragx (seq 1 K').
+
+  Lemma hop_from_map (mk : nat -> packet A) : forall k a,
+    hop_from xb a (map mk (seq a k)) = map (fun j => or_bits (xb j) (mk j)) (seq a k).
+  Proof. induction k as [|k IH]; intros a; cbn [seq map hop_from]; [reflexivity|]. now rewrite IH. Qed.
+
+  Lemma hop_split_cons : hop xb (split F g n) = f0 :: rest.
+  Proof.
+    rewrite (split_map F g n HF Ht). unfold hop. rewrite hop_from_map. fold M.
+    pose proof (M_ge2 F n HF Hs). replace (Z.to_nat M) with (S K') by (unfold K', M in *; lia). reflexivity.
+  Qed.
+  Lemma in_hop x : In x (f0 :: rest) -> exists j, x = hfragx j /\ (j < Z.to_nat M)%nat.
+  Proof.
+    pose proof (M_ge2 F n HF Hs). intros [<-|Hx]; [exists 0%nat; split; [reflexivity | unfold M in *; lia]|].
+    unfold rest in Hx. apply in_map_iff in Hx. destruct Hx as (j & <- & Hj). apply in_seq in Hj.
+    exists j. split; [reflexivity | unfold K' in *; lia].
+  Qed.
+  Lemma hfragx_pos j : pos (hfragx j) = pos (hfrag F g n j).
+  Proof. reflexivity. Qed.
+  Lemma hfragx_data j : p_data (hfragx j) = p_data (hfrag F g n j).
+  Proof. reflexivity. Qed.
+
+  Lemma hfragx_props j :
+    p_dev (hfragx j) = self /\ MvRefresh <= p_id (hfragx j) /\ has_multi (p_flags (hfragx j)) = false /\
+    has_frag (p_flags (hfragx j)) = true /\ f_len (p_flags (hfragx j)) = M /\ f_group (p_flags (hfragx j)) = g /\
+    p_id (hfragx j) = p_id n /\ p_job (hfragx j) = p_job n.
+  Proof.
+    destruct (hfrag_props F g self n HF Hs HM Haddr j) as (H1 & H2 & H3 & H4 & H5 & H6 & _ & H8 & H9).
+    unfold hfragx, or_bits, with_flags, has_multi, has_frag in *.
+    cbn [p_dev p_id p_job p_flags f_len f_group f_bits f_pos] in *.
+    repeat split; auto.
+    - rewrite Z.lor_spec, H3, Hxb. reflexivity.
+    - rewrite Z.lor_spec, H4. reflexivity.
+  Qed.
+
+  Lemma testbit_fold_lor k : forall (l : list Z) a,
+    Z.testbit (fold_left Z.lor l a) k = Z.testbit a k || existsb (fun x => Z.testbit x k) l.
+  Proof.
+    induction l as [|x r IH]; intros a; cbn [fold_left existsb]; [now rewrite orb_false_r|].
+    rewrite IH, Z.lor_spec, orb_assoc. reflexivity.
+  Qed.
+
+  Lemma join_any (m : packet A) tl :
+    Forall (fun x => is_nil (p_data x) = false /\ p_id x = p_id m) tl ->
+    join m tl = mkPacket (p_id m) (p_job m) (p_dev m)
+                  (mkFlags (f_len (p_flags m)) (f_pos (p_flags m)) (f_group (p_flags m))
+                           (fold_left Z.lor (map (fun x => f_bits (p_flags x)) tl) (f_bits (p_flags m))))
+                  (p_tags m) (p_data m ++ concat (map p_data tl)).
+  Proof.
+    intros H. unfold join.
+    assert (filter (joinable m) tl = tl) as ->; [|reflexivity].
+    induction tl as [|x r IH]; [reflexivity|]. inversion H as [|? ? (Hn & Hi) Hr]; subst.
+    cbn [filter]. unfold joinable at 1. rewrite Hn, Hi, Z.eqb_refl. cbn [orb negb]. f_equal. now apply IH.
+  Qed.
+
+  (* receive() hands any ordinary packet for this Session to the handler *)
+  Lemma recv_ordinary k (st : state A) (R : packet A) :
+    p_dev R = self -> self <> 0 -> MvRefresh <= p_id R ->
+    has_multi (p_flags R) = false -> has_frag (p_flags R) = false ->
+    recv_f (S k) self st R = (st, ODeliver R).
+  Proof.
+    intros Hd Hself Hid Hmu Hfr. unfold MvRefresh in Hid. rewrite recv_f_S.
+    rewrite Hd. replace (self =? 0) with false by lia. unfold is_nop.
+    replace (p_id R <? 2) with false by lia. cbn [andb orb].
+    rewrite Z.eqb_refl. cbn [negb]. rewrite andb_false_r.
+    unfold SvComplete. replace (p_id R =? 4) with false by lia. cbn [andb].
+    rewrite Hmu, Hfr. unfold recv_single, SvResync, SvRegister, SvShutdown, SvComplete, MvRefresh.
+    replace (p_id R =? 1) with false by lia. replace (p_id R =? 3) with false by lia.
+    replace (p_id R =? 5) with false by lia. replace (p_id R =? 4) with false by lia.
+    replace (p_id R <? 7) with false by lia. cbn [orb andb]. reflexivity.
+  Qed.
+
+  Lemma f0x_data : is_nil (p_data f0) = false.
+  Proof. exact (f0_data F g n HF Hs). Qed.
+
+  Lemma Vx_is_delivered :
+    with_flags (fclear (p_flags (join f0 (stored rest)))) (join f0 (stored rest)) = delivered_of (f0 :: rest) n.
+  Proof.
+    rewrite (join_any f0 (stored rest)).
+    2:{ apply Forall_forall. intros x Hx. unfold stored in Hx. apply filter_In in Hx. destruct Hx as [Hx Hne].
+        destruct (in_hop x (or_intror Hx)) as (j & -> & _).
+        destruct (hfragx_props j) as (_ & _ & _ & _ & _ & _ & Hi & _).
+        destruct (hfragx_props 0%nat) as (_ & _ & _ & _ & _ & _ & Hi0 & _).
+        unfold nonempty in Hne. apply negb_true_iff in Hne. split; [exact Hne|]. unfold f0. congruence. }
+    unfold with_flags, fclear, delivered_of. cbn [p_id p_job p_dev p_flags p_tags p_data f_bits hd tl].
+    assert (p_data f0 ++ concat (map p_data (stored rest)) = p_data n) as ->.
+    { change (p_data f0 ++ concat (map p_data (stored rest))) with (concat (map p_data (f0 :: stored rest))).
+      rewrite <- (stored_head f0 f0x_data). rewrite concat_stored.
+      assert (map p_data (f0 :: rest) = map p_data (split F g n)) as ->.
+      { rewrite (split_cons F g n HF Ht Hs). fold M. fold K'. unfold f0, rest. cbn [map]. f_equal.
+        rewrite !map_map. apply map_ext. intros j. apply hfragx_data. }
+      apply (split_concat F Fp g n Ht). }
+    reflexivity.
+  Qed.
+
+  Theorem reassemble_hop (evs : list (ev A)) (st0 : state A) :
+    wf st0 -> lookup g st0 = None ->
+    Permutation (own_pkts g evs) (hop xb (split F g n)) ->
+    hd_error (own_pkts g evs) = hd_error (hop xb (split F g n)) ->
+    paced g evs = true ->
+    lookup g (fst (run self st0 evs)) = None /\
+    own_outs g evs (snd (run self st0 evs)) =
+      repeat ONone (Z.to_nat (nfrag F n - 1)) ++ [ODeliver (delivered_of (hop xb (split F g n)) n)].
+  Proof.
+    rewrite hop_split_cons. cbn [hd_error]. intros Hwf L HP Hhd Hpaced. fold M.
+    pose proof (M_ge2 F n HF Hs) as HM2. destruct Haddr as (Hd & Hself & Hid & Hmu).
+    apply (run_reassembles g M self (p_id n) (p_job n) f0 rest (delivered_of (f0 :: rest) n)); try assumption.
+    - unfold M in *; lia.
+    - rewrite <- hop_split_cons. unfold hop.
+      assert (forall (l : list (packet A)) a, len (hop_from xb a l) = len l) as Hl.
+      { induction l; intros a0; cbn [hop_from]; [reflexivity | rewrite !len_cons, IHl; reflexivity]. }
+      rewrite Hl. apply (split_length F Fp g n Ht).
+    - apply Forall_forall. intros x Hx. destruct (in_hop x Hx) as (j & -> & _).
+      destruct (hfragx_props j) as (H1 & H2 & H3 & H4 & H5 & H6 & H8 & H9). auto 10.
+    - assert (f0 :: rest = map hfragx (seq 0 (S K'))) as -> by reflexivity.
+      assert (forall k a, (a + k <= Z.to_nat M)%nat -> StronglySorted le_pos (map hfragx (seq a k))) as Hss.
+      { induction k as [|k IH]; intros a Ha; cbn [seq map]; constructor; [apply IH; lia|].
+        apply Forall_forall. intros x Hx. apply in_map_iff in Hx. destruct Hx as (j & <- & Hj). apply in_seq in Hj.
+        unfold le_pos. rewrite !hfragx_pos, !(hfrag_pos F g n HM) by (unfold M in *; lia). lia. }
+      apply Hss. unfold K', M in *. lia.
+    - intros x y Hx Hy. destruct (in_hop x Hx) as (i & -> & Hi). destruct (in_hop y Hy) as (j & -> & Hj).
+      rewrite !hfragx_pos, !(hfrag_pos F g n HM) by assumption. intros E. replace j with i by lia. reflexivity.
+    - change (pos f0 = 0). unfold f0. rewrite hfragx_pos, (hfrag_pos F g n HM) by (unfold M in *; lia). reflexivity.
+    - exact f0x_data.
+    - intros st. rewrite Vx_is_delivered. apply recv_ordinary; try assumption.
+      + unfold delivered_of, has_multi. cbn [p_flags f_bits hd tl].
+        rewrite Z.lxor_spec, testbit_fold_lor, testbit_1. cbn [Z.eqb]. rewrite xorb_false_r.
+        destruct (hfragx_props 0%nat) as (_ & _ & H3 & _). unfold has_multi in H3. fold f0 in H3. rewrite H3. cbn [orb].
+        apply not_true_iff_false. intros Hex. apply existsb_exists in Hex. destruct Hex as (b & Hb & Hbit).
+        apply in_map_iff in Hb. destruct Hb as (x & <- & Hx). apply filter_In in Hx. destruct Hx as [Hx _].
+        destruct (in_hop x (or_intror Hx)) as (j & -> & _).
+        destruct (hfragx_props j) as (_ & _ & H3j & _). unfold has_multi in H3j. congruence.
+      + unfold delivered_of, has_frag. cbn [p_flags f_bits hd tl].
+        rewrite Z.lxor_spec, testbit_fold_lor, testbit_1. cbn [Z.eqb].
+        destruct (hfragx_props 0%nat) as (_ & _ & _ & H4 & _). unfold has_frag in H4. fold f0 in H4. rewrite H4. reflexivity.
+  Qed.
+End ConcreteHop.
 
 (* ---- a group with a missing fragment, stated for the split ----------------------------------- *)
 Section MissingSplit.
@@ -1732,3 +1887,37 @@ Proof. intros. apply listen_sparse; auto. intros; discriminate. Qed.
 Theorem thm_sparse_paced : forall (A : Type) (g : Z) (evs : list (ev A)),
   sparse false evs = true -> fgap g evs = true -> paced g evs = true.
 Proof. intros. now apply (paced_of_sparse g evs false). Qed.
+
+Theorem thm_reassemble_hop_flags : forall (A : Type) (F g self : Z) (n : packet A) (xb : nat -> Z) (evs : list (ev A)) (st0 : state A),
+  HeaderSize <= F -> 0 <= p_tags n -> F < size n -> nfrag F n <= 65535 -> addressed self n ->
+  (forall j, Z.testbit (xb j) 1 = false) ->
+  NoDup (map fst st0) -> lookup g st0 = None ->
+  Permutation (own_pkts g evs) (hop xb (split F g n)) ->
+  hd_error (own_pkts g evs) = hd_error (hop xb (split F g n)) ->
+  paced g evs = true ->
+  own_outs g evs (snd (run self st0 evs)) =
+    repeat ONone (Z.to_nat (nfrag F n - 1)) ++ [ODeliver (delivered_of (hop xb (split F g n)) n)] /\
+  lookup g (fst (run self st0 evs)) = None.
+Proof. intros. apply and_comm. now apply (reassemble_hop F g self n xb). Qed.
+
+Module ExH.
+  Import Ex.
+  (* FlagChannel (16) set on fragment 1 only, FlagChannelEnd (32) on the empty fragment 2 *)
+  Definition xb (j : nat) : Z := match j with 1%nat => 16 | 2%nat => 32 | _ => 0 end.
+  Definition ah (k : nat) : ev Z := EvPkt (nth k (hop xb (split F gA nA)) nA).
+  Definition evs : list (ev Z) := [ah 0; w; b 0; ah 2; b 1; ah 1].
+  Lemma ok :
+    (forall j, Z.testbit (xb j) 1 = false) /\
+    map (fun f => f_bits (p_flags f)) (hop xb (split F gA nA)) = [5; 21; 37] /\
+    Permutation (own_pkts gA evs) (hop xb (split F gA nA)) /\
+    hd_error (own_pkts gA evs) = hd_error (hop xb (split F gA nA)) /\ paced gA evs = true /\
+    (* the bits of the EMPTY fragment are not merged (Add skips it), FlagFrag is cleared: 5 | 21 = 21, xor 1 = 20 *)
+    f_bits (p_flags (delivered_of (hop xb (split F gA nA)) nA)) = 20 /\
+    own_outs gA evs (snd (run 1 [] evs)) = [ONone; ONone; ODeliver (delivered_of (hop xb (split F gA nA)) nA)].
+  Proof.
+    split; [intros [|[|[|j]]]; reflexivity|].
+    split; [vm_compute; reflexivity|].
+    split; [vm_compute; apply perm_skip; apply perm_swap|].
+    repeat split; vm_compute; reflexivity.
+  Qed.
+End ExH.
